@@ -73,6 +73,9 @@ CLAIMED = {
  'C18': ('fault injection on the real binary: LD_PRELOAD shim enumerates every write call towards the consumer (EPIPE from call n on), real closed pipes and quitting pagers; stub pagers/commands; reference model of pager selection; generated inputs and option sets',
          'Fault enumeration: for generated scenarios (stdin to stdout, stdin to pager, wrapped git/rg command, two files, informational commands, pager-selection environments) the write calls delta makes towards its consumer are counted and then each one in turn (all up to 30 per scenario, sampled beyond; 400 in the thorough tier) is made to fail with EPIPE together with all later ones; the exit status, stderr, delivered bytes, the started pager with its arguments and input, and the order of exits are judged against the statement.',
          'Trusted: shim (write/writev of the process named delta), stub tools, 15 ms exit stamp of the stub pager; real git only for `delta A B`.', '3/C18'),
+ 'C20': ('forced thread schedules on the real binary through guarded ordering points (environment-sequenced), generated scenarios x inputs x schedule positions; reference model of the lock/condvar protocol; differential oracle against the schedule "background thread first" and a neutral parent process',
+         'Exploration over schedules: for generated scenarios (the calling process is guessed from the parent: git grep / rg / git blame / git show REV:file / git diff --word-diff; or known: delta rg / delta git grep / delta git blame under a parent of another kind) the background thread\'s critical section is forced in front of, between and (by contention) inside every critical section of the main thread (publication of the known command, each query), with early and late thread start; every run must exit 0 in time and render byte-identically to the reference schedule; the recorded trace must show that the schedule was realised.',
+         'Trusted: the ordering points only delay; the answer a query got is observed through rendering that depends on it; races between two ordering points are left to the OS (both outcomes are legal interleavings); x86-64 memory model.', '3/C20'),
 }
 hook_commits = subprocess.check_output(['git','-C','/repo','log','--format=%H','--grep','^verif hook:'],text=True).split()
 checks = []
